@@ -39,6 +39,9 @@ type dRes struct {
 	Type string `json:"type"`
 	ID   string `json:"id"`
 	Vals valMap `json:"vals"`
+	// Extra: the resource is a soft resource on a type of its own that has the schema type's name and
+	// one more attribute, "ex" (a copy that was given a field later)
+	Extra bool `json:"extra"`
 }
 
 type dDoc struct {
@@ -234,8 +237,14 @@ func (w *docWorld) res(r dRes) jsonapi.Resource {
 		res = newRes(w.v.Impl, r.Type, docFields[r.Type], w.km)
 	}
 	res.Set("id", w.v.id(r.ID))
+	if sr, ok := res.(*jsonapi.SoftResource); ok && r.Extra {
+		sr.AddAttr(jsonapi.Attr{Name: "ex", Type: w.km.real("string")})
+	}
 	for f, val := range r.Vals {
 		d := docFields[r.Type][f]
+		if f == "ex" {
+			d = jDef{Kind: "attr", K: "string"}
+		}
 		if d.Kind == "rel" {
 			ids := make([]string, len(val.IDs))
 			for i, x := range val.IDs {
@@ -480,6 +489,9 @@ func (w *docWorld) projObj(raw json.RawMessage, isIdent bool) dObj {
 	_ = json.Unmarshal(m["attributes"], &attrs)
 	for name, rv := range attrs {
 		d, ok := defs[name]
+		if name == "ex" { // the attribute of a member's own wider type
+			d, ok = jDef{Kind: "attr", K: "string"}, true
+		}
 		if !ok || d.Kind != "attr" {
 			o.Attrs[name] = jVal{R: -9, IDs: []string{}}
 			continue
@@ -694,7 +706,7 @@ func permuteDoc(d dDoc, rng *rand.Rand) dDoc {
 	pr := func(rs []dRes) []dRes {
 		out := make([]dRes, len(rs))
 		for i, r := range rs {
-			nr := dRes{Type: r.Type, ID: r.ID, Vals: valMap{}}
+			nr := dRes{Type: r.Type, ID: r.ID, Vals: valMap{}, Extra: r.Extra}
 			for f, v := range r.Vals {
 				if docFields[r.Type][f].Kind == "rel" && !docFields[r.Type][f].To1 {
 					v = jVal{IDs: shuf(v.IDs)}
@@ -909,6 +921,12 @@ func randDoc(rng *rand.Rand) dDoc {
 				d.Primary = append(d.Primary, randDocRes(rng, "t1", id))
 			}
 		}
+		if d.Kind == "many" && d.Coll == "resources" && len(d.Primary) >= 2 && rng.Intn(5) == 0 {
+			// a member (not the first one) whose own type has one more attribute than the schema's
+			k := 1 + rng.Intn(len(d.Primary)-1)
+			d.Primary[k].Extra = true
+			d.Primary[k].Vals["ex"] = jVal{R: 1 + rng.Intn(3), IDs: []string{}}
+		}
 		if d.Kind == "many" && d.Coll == "resources" && len(d.Primary) > 0 && rng.Intn(4) == 0 {
 			// the same id under the other type (ids are unique per type only)
 			other := "t1"
@@ -984,6 +1002,11 @@ func randDoc(rng *rand.Rand) dDoc {
 	}
 	sel("t1")
 	sel("t2")
+	for _, r := range d.Primary {
+		if r.Extra { // the wider member's own attribute is asked for too
+			d.Fields[r.Type] = append(append([]string{}, d.Fields[r.Type]...), "ex")
+		}
+	}
 	return d
 }
 
@@ -1102,6 +1125,12 @@ func docMain(args []string) {
 			NoFrom: rng.Intn(3) == 0, EmptyTok: []string{"", "", "", "v", "u"}[rng.Intn(5)], Query: rng.Intn(len(docQueries))}
 		if d.Coll == "wrapcol" {
 			v.Impl = "wrap"
+		}
+		for _, r := range d.Primary {
+			if r.Extra {
+				v.Impl = "soft" // only a soft resource can have a type of its own
+				stt.class("member-with-wider-type")
+			}
 		}
 		if rng.Intn(2) == 0 {
 			v.Shift = 0
